@@ -223,6 +223,13 @@ func runRoundTrip(t *testing.T, prop string, sig canon.Signal) {
 		// batches on one stream bring more related-table parents in total than 16 bits can number
 		rel := n < 65535
 		h.Batches = []Batch{leanBigRel(sig, n, 0, variant, rel), genBatch(g, sig, 8), leanBigRel(sig, n, 1, variant, rel)}
+		if n == 65535 {
+			// the 65,535-item case opens its stream with a batch whose attribute-value column holds MORE distinct
+			// values (66,000) than the default dictionary limit, each used about four times (262,140 rows, ratio
+			// 0.25 < the reset threshold): the dictionary is reset and - the record holding every value of the
+			// stream - found too large again right away, so the column must end up without dictionary
+			h.Batches[0] = leanBigRel(sig, n, 0, 3, false)
+		}
 		o := DefaultOpts()
 		if variant > 0 {
 			o = RandomOpts(c.R)
@@ -286,6 +293,12 @@ func leanBig(sig canon.Signal, n, round, variant int) Batch {
 // in total than a 16-bit id could number (each batch alone stays inside the protocol's limit).
 func leanBigRel(sig canon.Signal, n, round, variant int, rel bool) Batch {
 	put := func(m pcommon.Map, i int) {
+		if variant == 3 {
+			for j := 0; j < 4; j++ {
+				m.PutStr([]string{"a0", "a1", "a2", "a3"}[j], fmt.Sprintf("v%d", (i*4+j)%66000))
+			}
+			return
+		}
 		switch variant % 3 {
 		case 0:
 			m.PutInt("i", int64(i%7+round))
